@@ -7,6 +7,7 @@ cfg JSON: {"num_nodes", "max_capacity", "max_demand", "dense", "sqrt2": float32 
 import JumanjiModel.Bridge.Json
 import JumanjiModel.Env.CVRP.Model
 import JumanjiModel.Env.CVRP.Bounds
+import JumanjiModel.Env.CVRP.Spec
 open Lean Jb
 
 namespace Jb.CVRP
@@ -106,7 +107,11 @@ def opInstance : Op := fun j => do
               ("generate_cert", jBool (decide (GenCert n c.maxCap maxDemand s))),
               ("is_generate_of_its_draws", jBool (decide (s = generate n c.maxCap s.coords s.demands))),
               ("feasible", jBool (decide (Feasible c.maxCap s))),
-              ("dist_matches_coordinates", jBool (distMatches (1 / 100000) s.coords D))])
+              ("dist_matches_coordinates", jBool (distMatches (1 / 100000) s.coords D)),
+              -- wave 3 (C01): the invariant behind `cvrp_step_obs_valid`, and membership of the reset observation in the
+              -- symbolic `obsSpec n`, on the implementation's reset state
+              ("spec_inv", jBool (decide (SpecInv c n s))),
+              ("reset_obs_in_spec", jBool ((obsSpec n).valid (toNValue (stateToObs c s))))])
 
 def jBounds (t : Jm.OB.Table) : Json :=
   jObj (t.map fun e => (e.1, jObj [("lo", match e.2.1 with | some r => jRat r | none => Json.null),
